@@ -279,12 +279,19 @@ def main():
         log('INCONCLUSIVE property=%s no harness' % pid)
         return 2
     eng = run.load([(b['mir'], b['src'])], [(os.path.join(b['src'], 'src'), '')], {})
-    out = tempfile.mkdtemp(prefix='icverif-run-', dir='/var/tmp')
     budget = 1500 if tier == 'quick' else 10800
-    try:
-        res = run.explore(eng, names, out, jobs=15, deadline=time.time() + budget)
-    finally:
-        shutil.rmtree(out, ignore_errors=True)
+    # libz3 5.1 has been seen to segfault inside a worker (twice in several thousand runs, dmesg: "segfault ... in
+    # libz3.so.5.1"); that kills the worker, not the verdict: the exploration is repeated from scratch, at most twice
+    for attempt in range(3):
+        out = tempfile.mkdtemp(prefix='icverif-run-', dir='/var/tmp')
+        try:
+            res = run.explore(eng, names, out, jobs=15, deadline=time.time() + budget)
+        finally:
+            shutil.rmtree(out, ignore_errors=True)
+        crashed = any(r['type'] == 'error' and 'exited abnormally' in r.get('detail', '') for recs in res.values() for r in recs)
+        if not crashed:
+            break
+        log('note: a solver worker process crashed (attempt %d); repeating the exploration' % (attempt + 1))
     return conclude(pid, tier, seed, b, names, res, t0, cfg)
 
 
